@@ -169,8 +169,14 @@ func NewSession() (*Session, error) {
 	return s, nil
 }
 
-// Close removes the scratch directory.
-func (s *Session) Close() { os.RemoveAll(s.Dir) }
+// Close removes the scratch directory (kept when VERIF_KEEP is set, for debugging).
+func (s *Session) Close() {
+	if os.Getenv("VERIF_KEEP") != "" {
+		fmt.Fprintln(os.Stderr, "VERIF_KEEP: scratch directory kept at", s.Dir)
+		return
+	}
+	os.RemoveAll(s.Dir)
+}
 
 type childCfg struct {
 	Prop    string `json:"prop"`
@@ -329,7 +335,9 @@ func RunProperty(id, tier string, seed uint64) int {
 			mu.Lock()
 			results[i] = res
 			mu.Unlock()
-			os.RemoveAll(dir)
+			if os.Getenv("VERIF_KEEP") == "" {
+				os.RemoveAll(dir)
+			}
 		}(i)
 	}
 	wg.Wait()
